@@ -182,7 +182,7 @@ func parent(ck *checks.Check, tier string, dl time.Duration) int {
 		if ck.ID == "C10" || ck.ID == "C16" || ck.ID == "C09" || ck.ID == "C17" || ck.ID == "C18" {
 			h := *total.Hang
 			h.Q = strconv.Quote(string(h.S))
-			total.Add(core.Finding{Prop: ck.ID, Case: h, Key: h.Key(), Msg: fmt.Sprintf("call did not return within %v", checks.HangLimit)})
+			total.Add(core.Finding{Prop: ck.ID, Case: h, Key: h.Key(), Msg: fmt.Sprintf("call did not return within %v (or its heap grew beyond 6 GiB): %v", checks.HangLimit, total.Notes)})
 		} else {
 			fmt.Fprintf(os.Stderr, "CHECK-BROKEN: case %s did not return within %v (termination is decided by C10)\n", total.Hang.Key(), checks.HangLimit)
 			return 2
